@@ -120,6 +120,10 @@ def run(chk):
                 chk.violation("correspondence broken (negotiation model of C11 vs the real client): for `%s` the model predicts %s, the real client negotiated %s; no delivery failure found" % (o, l, e),
                               ["# correspondence C11L.upencAutodetect/downencAutodetect vs client.c handshake no longer checks", o], no_input=True)
     chk.notes["negotiation_predictions_compared"] = npred
+    # the server side of "Base32 survives every path": sessions of up to 20 clients, some behind relays that upper- or lower-case every query name
+    # (user ids 10..15 are the letters a..f / A..F in data queries), through the real loop and the byte-level server model
+    import srvcheck
+    srvcheck.model_only(chk, "C11", runs=24 if thorough else 8, nsteps=400, seed_mul=86028121)
     W.report_client_model(chk, res, "C11")
     W.report_server_model(chk, res, "C11")
     if not chk.violations and not proof_ok:
